@@ -18,6 +18,7 @@ import (
 	"encoding/json"
 	"flag"
 	"fmt"
+	"io"
 	"net"
 	"os"
 	"path/filepath"
@@ -54,15 +55,50 @@ type event struct {
 	Offset    int    `json:"offset,omitempty"`
 	Succeeded bool   `json:"succeeded,omitempty"`
 	X         bool   `json:"x,omitempty"`
+	Np        int    `json:"np,omitempty"` // candidate peers offered to this attempt
+	T2        string `json:"t2,omitempty"` // outcome scripted for the second candidate ("none": no such candidate)
+	K2        int    `json:"k2,omitempty"`
+	X2        bool   `json:"x2,omitempty"`
+	Offset2   int    `json:"offset2,omitempty"`
+	Final     string `json:"final,omitempty"` // "mid" events: state when the backend's write call returned
 	Obs       *obs   `json:"obs,omitempty"`
 	// real run only: OffsetSeen = the scripted peer received the request (so Offset is an observation)
-	OffsetSeen bool `json:"offset_seen,omitempty"`
-	CaughtUp   bool `json:"caught,omitempty"` // Puller.FullyCaughtUp() at the end of a processEntry run
+	OffsetSeen  bool `json:"offset_seen,omitempty"`
+	Offset2Seen bool `json:"offset2_seen,omitempty"`
+	CaughtUp    bool `json:"caught,omitempty"` // Puller.FullyCaughtUp() at the end of a processEntry run
 }
 
 type outcome struct {
 	T string `json:"t"`
 	K int    `json:"k"`
+}
+
+// plan of one attempt: the candidates the resolver offers and the outcome scripted for each
+type plan struct {
+	Np int     `json:"np"`
+	O1 outcome `json:"o1"`
+	O2 outcome `json:"o2"`
+	X2 bool    `json:"second_served_after_script_end,omitempty"`
+}
+
+// midBackend is the recording proxy around the real LocalBackend: the puller's write goroutine calls it, and when the real
+// WriteReader / AppendReader has returned (the puller has not post-processed the fetch yet) it calls back so that the
+// driver can look at the final path in that intermediate state.
+type midBackend struct {
+	*storage.LocalBackend
+	after func()
+}
+
+func (m *midBackend) WriteReader(ctx context.Context, path string, reader io.Reader, size int64) error {
+	err := m.LocalBackend.WriteReader(ctx, path, reader, size)
+	m.after()
+	return err
+}
+
+func (m *midBackend) AppendReader(ctx context.Context, path string, reader io.Reader, appendSize int64) error {
+	err := m.LocalBackend.AppendReader(ctx, path, reader, appendSize)
+	m.after()
+	return err
 }
 
 type finding struct {
@@ -71,21 +107,24 @@ type finding struct {
 }
 
 type result struct {
-	Scenarios   int            `json:"scenarios"`
-	Runs        int            `json:"runs"`
-	Attempts    int            `json:"attempts"`
-	Sessions    int            `json:"sessions"`
-	CalmRuns    int            `json:"calm_runs"`
-	PerOutcome  map[string]int `json:"per_outcome"`
-	Resumes     int            `json:"resumed_attempts"`
-	Promotions  int            `json:"promotions"`
-	Keys        []string       `json:"nontrivial_keys"`
-	Violations  []finding      `json:"violations"`
-	Drift       []finding      `json:"drift"`
-	Samples     []interface{}  `json:"samples"`
-	Infra       string         `json:"infra,omitempty"`
-	ScalesUsed  map[string]int `json:"scales_used"`
-	WallSeconds float64        `json:"wall_s"`
+	Scenarios         int            `json:"scenarios"`
+	Runs              int            `json:"runs"`
+	Attempts          int            `json:"attempts"`
+	Sessions          int            `json:"sessions"`
+	CalmRuns          int            `json:"calm_runs"`
+	PerOutcome        map[string]int `json:"per_outcome"`
+	Resumes           int            `json:"resumed_attempts"`
+	TwoPeerAttempts   int            `json:"two_candidate_attempts"`
+	SecondPeerFetches int            `json:"second_candidate_fetches"`
+	MidObservations   int            `json:"mid_attempt_observations"`
+	Promotions        int            `json:"promotions"`
+	Keys              []string       `json:"nontrivial_keys"`
+	Violations        []finding      `json:"violations"`
+	Drift             []finding      `json:"drift"`
+	Samples           []interface{}  `json:"samples"`
+	Infra             string         `json:"infra,omitempty"`
+	ScalesUsed        map[string]int `json:"scales_used"`
+	WallSeconds       float64        `json:"wall_s"`
 }
 
 // ---------------------------------------------------------------- scripted peer
@@ -212,6 +251,7 @@ func (r resolver) ResolvePeers(origin, path string) []string { return r.fn() }
 
 type runner struct {
 	peer    *peer
+	peer2   *peer
 	base    string
 	maxSess int
 	retry   int
@@ -298,17 +338,14 @@ func (r *runner) run(hist []event, scale int) error {
 	good := goodBytes(size*scale, r.n)
 	sum := sha256.Sum256(good)
 	sha := hex.EncodeToString(sum[:])
-	var script []outcome
+	// the scripted plans are those consumed before the model's script ended (x = false); after that the driver serves
+	// one candidate that succeeds, as the model does
+	var script []plan
 	for _, e := range hist {
 		if e.Ev == "attempt" && !e.X {
-			script = append(script, outcome{e.T, e.K})
+			script = append(script, plan{Np: e.Np, O1: outcome{e.T, e.K}, O2: outcome{e.T2, e.K2}, X2: e.X2})
 		}
 	}
-	// scripted outcomes are only those consumed before the model's script ended; the model
-	// appends "ok" outcomes after exhaustion, which the driver reproduces by itself. The
-	// boundary is the first session marked calm or the first attempt after which every
-	// outcome is "ok" -- both give the same served sequence, so serve the recorded sequence
-	// and fall back to "ok" when it runs out.
 	root := filepath.Join(r.base, fmt.Sprintf("r%d", r.n))
 	if err := os.MkdirAll(root, 0o700); err != nil {
 		return err
@@ -354,8 +391,10 @@ func (r *runner) run(hist []event, scale int) error {
 		attInSess int
 		pending   *event
 		lastType  string
+		mids      int
 		pl        *filereplication.Puller
 	)
+	peers := []*peer{r.peer, r.peer2}
 	real = append(real, event{Ev: "init", Size: size, Plen: init.Plen, Pok: init.Pok})
 	snapshot := func() (*obs, map[string]interface{}) {
 		f, plen, pok, raw := classify(root, rel, good, scale)
@@ -381,18 +420,30 @@ func (r *runner) run(hist []event, scale int) error {
 	closeAttempt := func(kind string) (*obs, map[string]interface{}) {
 		o, raw := snapshot()
 		if pending != nil {
-			r.peer.mu.Lock()
-			if r.peer.sawReq {
-				pending.Offset = int(r.peer.lastOff) / scale
-				pending.OffsetSeen = true
-				if r.peer.lastOff > 0 {
-					r.res.Resumes++
+			for i, pr := range peers {
+				pr.mu.Lock()
+				if pr.sawReq {
+					if i == 0 {
+						pending.Offset, pending.OffsetSeen = int(pr.lastOff)/scale, true
+					} else {
+						pending.Offset2, pending.Offset2Seen = int(pr.lastOff)/scale, true
+						r.res.SecondPeerFetches++
+					}
+					if pr.lastOff > 0 {
+						r.res.Resumes++
+					}
 				}
+				pr.sawReq = false
+				pr.mu.Unlock()
 			}
-			r.peer.sawReq = false
-			r.peer.mu.Unlock()
 			real = append(real, *pending)
 			lastType = pending.T
+			if pending.Np == 0 {
+				lastType = "nopeer"
+			}
+			if pending.Offset2Seen {
+				lastType = pending.T2
+			}
 			judgeFinal(o, raw, pending.T)
 			pending = nil
 		}
@@ -406,33 +457,73 @@ func (r *runner) run(hist []event, scale int) error {
 			real = append(real, event{Ev: "obs", Obs: o})
 		}
 		attInSess++
-		var oc outcome
+		var pn plan
+		x1 := false
 		if pos < len(script) && !exhausted {
-			oc = script[pos]
+			pn = script[pos]
 			pos++
+			if pn.X2 {
+				exhausted = true // the script ends after the first candidate's outcome; the second one just works
+			}
 		} else {
 			exhausted = true
-			oc = outcome{"ok", 0}
+			x1 = true
+			pn = plan{Np: 1, O1: outcome{"ok", 0}, O2: outcome{"none", 0}}
 		}
+		mids = 0
 		r.res.Attempts++
-		r.res.PerOutcome[oc.T]++
-		pending = &event{Ev: "attempt", T: oc.T, K: oc.K, Att: attInSess, X: exhausted}
-		r.peer.mu.Lock()
-		r.peer.cur, r.peer.good, r.peer.sha, r.peer.scale, r.peer.sub = oc, good, sha, scale, r.n*31
-		r.peer.sawReq = false
-		r.peer.mu.Unlock()
-		switch oc.T {
-		case "nopeer":
-			return nil
-		case "dial":
-			return []string{"127.0.0.1:0"}
+		if pn.Np == 0 {
+			r.res.PerOutcome["nopeer"]++
 		}
-		return []string{r.peer.addr}
+		pending = &event{Ev: "attempt", Np: pn.Np, Att: attInSess, T: pn.O1.T, K: pn.O1.K, X: x1, Offset: -1,
+			T2: pn.O2.T, K2: pn.O2.K, X2: pn.X2, Offset2: -1}
+		var addrs []string
+		for i, oc := range []outcome{pn.O1, pn.O2} {
+			if i >= pn.Np {
+				break
+			}
+			r.res.PerOutcome[oc.T]++
+			pr := peers[i]
+			pr.mu.Lock()
+			pr.cur, pr.good, pr.sha, pr.scale, pr.sub = oc, good, sha, scale, r.n*31
+			pr.sawReq = false
+			pr.mu.Unlock()
+			if oc.T == "dial" {
+				addrs = append(addrs, "127.0.0.1:0")
+			} else {
+				addrs = append(addrs, pr.addr)
+			}
+		}
+		if pn.Np == 2 {
+			r.res.TwoPeerAttempts++
+		}
+		return addrs
+	}}
+
+	// intermediate observation: the backend's write call has returned, the puller has not post-processed the fetch yet
+	proxy := &midBackend{LocalBackend: backend, after: func() {
+		mu.Lock()
+		defer mu.Unlock()
+		f, plen, pok, raw := classify(root, rel, good, scale)
+		real = append(real, event{Ev: "mid", Final: f, Plen: plen, Pok: pok})
+		r.res.MidObservations++
+		mids++
+		if f != "absent" && f != "good" {
+			oc := "?"
+			if pending != nil {
+				oc = pending.T
+				if mids == 2 {
+					oc = pending.T2
+				}
+			}
+			r.violation("bad-final:during-attempt:"+strings.SplitN(f, ":", 2)[0]+":outcome="+oc, witness(map[string]interface{}{"raw": raw,
+				"observed_when": "the backend's WriteReader/AppendReader call returned, before the puller handled the fetch result"}))
+		}
 	}}
 
 	cfg := filereplication.DefaultConfig()
 	cfg.SelfNodeID = "replica"
-	cfg.Backend = backend
+	cfg.Backend = proxy
 	cfg.Fetcher = fc
 	cfg.PeerResolver = res
 	cfg.Workers = 1
@@ -495,6 +586,7 @@ func (r *runner) run(hist []event, scale int) error {
 			return err
 		}
 		r.peer.wg.Wait()
+		r.peer2.wg.Wait()
 		sessions++
 		r.res.Sessions++
 		mu.Lock()
@@ -540,11 +632,18 @@ func (r *runner) run(hist []event, scale int) error {
 	return nil
 }
 
-func keyOf(init event, script []outcome, scale int) string {
+func keyOf(init event, script []plan, scale int) string {
 	var sb strings.Builder
 	fmt.Fprintf(&sb, "s%d/p%d%v/u%d", init.Size, init.Plen, init.Pok, scale)
-	for _, o := range script {
-		fmt.Fprintf(&sb, "/%s%d", o.T, o.K)
+	for _, pn := range script {
+		switch pn.Np {
+		case 0:
+			sb.WriteString("/nopeer")
+		case 1:
+			fmt.Fprintf(&sb, "/%s%d", pn.O1.T, pn.O1.K)
+		default:
+			fmt.Fprintf(&sb, "/%s%d+%s%d", pn.O1.T, pn.O1.K, pn.O2.T, pn.O2.K)
+		}
 	}
 	return sb.String()
 }
@@ -564,8 +663,14 @@ func compare(want, got []event) string {
 				return fmt.Sprintf("event %d: calm predicted %v observed %v", i, w.Calm, g.Calm)
 			}
 		case "attempt":
-			if w.T != g.T || w.K != g.K || w.Att != g.Att || w.X != g.X || (g.OffsetSeen && w.Offset != g.Offset) {
-				return fmt.Sprintf("event %d: attempt predicted %s@%d att=%d offset=%d observed %s@%d att=%d offset=%d", i, w.T, w.K, w.Att, w.Offset, g.T, g.K, g.Att, g.Offset)
+			if w.Np != g.Np || w.T != g.T || w.K != g.K || w.Att != g.Att || w.X != g.X || w.T2 != g.T2 || w.K2 != g.K2 || w.X2 != g.X2 ||
+				(g.OffsetSeen && w.Offset != g.Offset) || (g.Offset2Seen && w.Offset2 != g.Offset2) ||
+				(!g.OffsetSeen && w.Np >= 1 && w.T != "dial" && w.Offset >= 0) || (!g.Offset2Seen && w.T2 != "dial" && w.Offset2 >= 0) {
+				return fmt.Sprintf("event %d: attempt predicted %+v observed %+v", i, w, g)
+			}
+		case "mid":
+			if w.Final != g.Final || w.Plen != g.Plen || (w.Plen >= 0 && w.Pok != g.Pok) {
+				return fmt.Sprintf("event %d: state when the backend write returned: predicted %s/%d/%v observed %s/%d/%v", i, w.Final, w.Plen, w.Pok, g.Final, g.Plen, g.Pok)
 			}
 		case "obs", "end":
 			if w.Ev == "end" && (w.Succeeded != g.Succeeded || w.CaughtUp != g.CaughtUp) {
@@ -623,7 +728,12 @@ func main() {
 		os.RemoveAll(base)
 		fail(err)
 	}
-	r := &runner{peer: p, base: base, maxSess: *maxSess, retry: *retry, res: res}
+	p2, err := newPeer()
+	if err != nil {
+		os.RemoveAll(base)
+		fail(err)
+	}
+	r := &runner{peer: p, peer2: p2, base: base, maxSess: *maxSess, retry: *retry, res: res}
 	for i, h := range scen {
 		if len(h) == 0 || h[0].Ev != "init" {
 			os.RemoveAll(base)
@@ -644,6 +754,7 @@ func main() {
 		}
 	}
 	p.ln.Close()
+	p2.ln.Close()
 	res.WallSeconds = time.Since(t0).Seconds()
 	b, _ := json.Marshal(res)
 	if err := os.WriteFile(*out, b, 0o644); err != nil {
